@@ -14,7 +14,7 @@ CLAIMED = {
         "exposure loop: readout times, start time, destructive flag, prior bucket contents and written "
         "values are z3 reals/booleans; every feasible path (n<=6 quick, n<=12 thorough readouts, 2x2 frame) "
         "is executed and the clock/bucket-lifecycle clauses are decided by z3 per path; every path witness "
-        "is replayed on the unpatched code (thinned to 40 + every 25th path per task in the quick tier). The scene bucket has symbolic prior content and receives a source at every step; its emptiness is counted over the whole tree. IEEE layer of the reset: pixel and charge buffers with arbitrary Float64 contents (NaN, infinities) read exactly zero after Detector.empty() on all four detector types.",
+        "is replayed on the unpatched code (thinned to 40 + every 25th path per task in the quick tier). The scene bucket has symbolic prior content and receives a source at every step; its emptiness is counted over the whole tree. IEEE layer of the reset: pixel and charge buffers with arbitrary Float64 contents (NaN, infinities) read exactly zero after Detector.empty() on all four detector types. The symbolic loop also runs on CMOS, MKID and APD detectors (n = 2 quick, 1..3 thorough).",
         "Real arithmetic (IEEE rounding, NaN/inf outside); numpy replaced by the vx.symnp stand-in in the "
         "encoded modules; _extract_datatree_2d stubbed during symbolic runs; z3 trusted.",
         "dynamic symbolic execution of the real Python code (own engine vx) + z3 LRA, path-witness replay",
@@ -39,7 +39,7 @@ CLAIMED = {
         "as its own obligation) for every listed (resolution, concrete voltage range): bounds, low/full-scale saturation, "
         "no-wrap for 10 (quick) / 61 (thorough) resolutions, monotonicity for <= 8 / 10 bits; decided by cvc5 (z3 fall-back). "
         "Symbolic voltage range: bug-hunting under a time cap. Real-arithmetic layer: all clauses for every range, every listed "
-        "resolution; SAR bounds/full-scale up to 24 (64) bits, SAR monotone <= 8 (12) bits, zero-noise equivalence (reals, and exact Float64 for concrete range maxima 3.3 / 0.7 V quick, plus 1.8 / 0.2048 / 5.0 V thorough, 4..12 bits); float32 / float16 signal frames: every number parked in a narrow float array is recorded and integers among them must fit the mantissa (side condition that makes the real-arithmetic verdicts valid for those frames); simple_adc / sar_adc on a detector still holding the image of a lower-resolution conversion (all pairs of storage classes); the data_type option of simple_adc for every (storage class, requested type) pair with fixed-width wrap modelled: refused with nothing stored, or stored wide enough, full scale and ordered.",
+        "resolution; SAR bounds/full-scale up to 24 (64) bits, SAR monotone <= 8 (12) bits, zero-noise equivalence (reals, and exact Float64 for concrete range maxima 3.3 / 0.7 V quick, plus 1.8 / 0.2048 / 5.0 V thorough, 4..12 bits); float32 / float16 signal frames: every number parked in a narrow float array is recorded and integers among them must fit the mantissa (side condition that makes the real-arithmetic verdicts valid for those frames); simple_adc / sar_adc on a detector still holding the image of a lower-resolution conversion (all pairs of storage classes); the data_type option of simple_adc for every (storage class, requested type) pair with fixed-width wrap modelled: refused with nothing stored, or stored wide enough, full scale and ordered; the two SAR models (sar_adc, sar_adc_with_noise with zero strengths and noises) on detectors with a symbolic voltage range store the same image.",
         "NaN inputs excluded; exact-FP verdicts hold for the listed concrete ranges; FP monotonicity beyond 8/10 bits is out of "
         "solver reach (stated), covered only by the real-arithmetic layer; cvc5/z3 trusted.",
         "symbolic execution of the real Python code (vx) to QF_FP / LRA terms, decided by cvc5 and z3",
@@ -62,7 +62,7 @@ CLAIMED = {
         "ParameterValues boundaries, ModelFittingDataTree._set_bound/get_bounds/convert_to_parameters/update_processor and "
         "Processor.set/get executed with symbolic boundary pairs and symbolic decision vectors (1-D and 2-D) for every layout of "
         "1..3 variables (scalar / vector of 1..2 (3) placeholders, shared or per-component boundaries, linear or logarithmic): "
-        "bound vectors, value = dv or 10**dv by owner, inside [lo,hi], slices applied to the right keys, reported == applied. Best-individual reporting: the real get_best_individuals on a stub archipelago for all 6 fitness rankings x 1..3 requested individuals (reported parameters are the conversion of the reported decision vectors). Evaluated candidates: concrete witness layer - real pygmo runs (sade, nlopt neldermead / slsqp / lbfgs quick; + sga, bobyqa, mma thorough) on a two-parameter problem with the optimum on the box faces plus every evaluation entry point the pygmo problem exposes (fitness, gradient, hessians, batch_fitness) at a solver-chosen corner: every value the pipeline is run with lies in the box.",
+        "bound vectors, value = dv or 10**dv by owner, inside [lo,hi], slices applied to the right keys, reported == applied. Best-individual reporting: the real get_best_individuals on a stub archipelago for all 6 fitness rankings x 1..3 requested individuals (reported parameters are the conversion of the reported decision vectors). Evaluated candidates: concrete witness layer - real pygmo runs (sade, nlopt neldermead / slsqp / lbfgs quick; + sga, bobyqa, mma thorough) on a two-parameter problem with the optimum on the box faces plus every evaluation entry point the pygmo problem exposes (fitness, gradient, hessians, batch_fitness) at a solver-chosen corner: every value the pipeline is run with lies in the box. Vector variables declared as a list or as a tuple of placeholders (symbolic choice).",
         "10**x/log10 are uninterpreted functions constrained to be mutually inverse and monotone (real arithmetic); pygmo keeping "
         "candidates inside the box is covered by the witness runs only (C++).",
         "dynamic symbolic execution of the real Python code (vx) + z3 LRA+UF",
@@ -77,7 +77,7 @@ CLAIMED = {
         "target[target range], weights), each pair with its own processor, parameter applied.",
         "run_pipeline and xarray.DataArray are recording stand-ins in the accumulation harness (the stand-in frame depends on the seed the run is "
         "given, an unseeded run on a fresh unknown); champion re-simulation is decided at the level of _apply_parameters (same processor, parameter, "
-        "readout and seed-dependent frame as fitness()); settings re-declared through attributes after construction (fit ranges, weights, seed; symbolic) are what run_calibration hands to the fitting problem; champion reporting (_get_champions) is executed against an archipelago stub under pygmo's contract (an island's champion is its best-ever individual and never gets worse): reported == best-ever, hence never worse than before; pygmo honouring that contract is assumed; integer-typed target files with real weights; NaN handling outside (real arithmetic).",
+        "readout and seed-dependent frame as fitness()); settings re-declared through attributes after construction (fit ranges, weights, seed; symbolic) are what run_calibration hands to the fitting problem; champion reporting (_get_champions) is executed against an archipelago stub under pygmo's contract (an island's champion is its best-ever individual and never gets worse): reported == best-ever, hence never worse than before; pygmo honouring that contract is assumed; integer-typed target files with real weights; every target paired with a model argument and a detector setting of its own; NaN handling outside (real arithmetic).",
         "dynamic symbolic execution of the real Python code (vx) + z3 LIA/NRA, path-witness replay",
         "DESIGN.md section 4 C11",
     ),
@@ -85,7 +85,7 @@ CLAIMED = {
         "model_checking",
         "Real Charge methods executed with symbolic array values, cluster numbers and cluster positions (any real, including negative and "
         "beyond-range), pixel sizes symbolic (single cluster) or from a stated list: binning on 2x3 / 1x2 geometries with 1..2 clusters, all "
-        "histories of <= 3 operations over {array add, cluster add, read, reset} (+ final read), reset-in-the-middle histories of length 4 and histories with removal by id of the newest (X) and of the oldest (Y) cluster (ids with gaps), on a 1x2 geometry, against an independent "
+        "histories of <= 3 operations over {array add, cluster add, read, reset} (+ final read), reset-in-the-middle histories of length 4 and histories with removal by id of the newest (X) and of the oldest (Y) cluster (ids with gaps), on a 1x2 geometry with square and with 0.5 x 3.0 pixels, against an independent "
         "per-pixel accumulator; the binning loop runs un-jitted with numba index semantics, so an index outside the array is a reported event.",
         "Real arithmetic (positions exactly on pixel borders follow exact floor); removals are covered for the newest and the oldest cluster; "
         "the cluster table is a real pandas DataFrame holding symbolic cells; numba.njit is the identity during the symbolic run and replays "
@@ -100,8 +100,8 @@ CLAIMED = {
         "the three sweep routes (Processor.set, Processor.replace, create_new_processor) accept <=> documented range (independent table); stored value equals the given one, an accepted sweep value is the value the new processor holds, a refused value is not stored. "
         "_build_configuration / to_* builders on a mapping with symbolic numeric leaves for 4 detector types x {exposure, observation}: "
         "every attribute of detector, readout, pipeline and parameter list equals its leaf; 3+4 presence flags (128 patterns): exactly one "
-        "running mode and one detector. Mode settings of the built configuration (outputs folder, custom_dir_name, save list, pipeline seed, dask flag) equal the file's; counterexamples are replayed through pyxel.load on a generated YAML file.",
-        "YAML text parsing and textual numpy.* expressions outside; calibration builder outside; 'running the file gives the same results' "
+        "running mode and one detector. Mode settings of the built configuration (outputs folder, custom_dir_name, save list, pipeline seed, dask flag) equal the file's; counterexamples are replayed through pyxel.load on a generated YAML file. numpy.* value-range / readout-time texts (linspace, arange, geomspace, logspace, integer arange; decades 1e-15..1e3, solver-chosen) evaluate to exactly the numbers they denote through eval_range, ParameterValues and Readout.",
+        "YAML text parsing outside; textual numpy.* expressions are evaluated by numpy (concrete) and compared exactly; calibration builder outside; 'running the file gives the same results' "
         "is not decided; the documented ranges are a table written from docstrings and error messages.",
         "dynamic symbolic execution of the real Python code (vx) + z3 LRA/LIA/FP, path-witness replay",
         "DESIGN.md section 4 C12",
@@ -153,7 +153,7 @@ CLAIMED = {
         "same runs (each cell at the coordinates carrying its own values). Labels of the merged result: every path witness is replayed "
         "through the real run_mode and selected by label. Parallel path per cell: for all orders of three keys (two with colliding short names) the dimension-name "
         "mapping lists the keys in declaration order and the real dask worker function hands every model the value requested for its own key. Value lists given as "
-        "textual numpy expressions (four expressions, product and sequential mode) yield one run per evaluated value. The parallel parameter array is compared by label for ascending, descending and shuffled value lists.",
+        "textual numpy expressions (four expressions, product and sequential mode) yield one run per evaluated value. The parallel parameter array is compared by label for ascending, descending and shuffled value lists. Custom mode built from a table file wider than the column range, with symbolic present / empty cells in the unused columns.",
         "Lists are assumed strictly monotone in symbolic runs (pandas sorts index levels); coordinate attachment and xr.merge are "
         "checked on solver-chosen witnesses only; numpy.* range strings and dask execution outside.",
         "dynamic symbolic execution of the real Python code (vx) + z3 (equalities over opaque terms), concrete label replay per path",
@@ -181,7 +181,7 @@ CLAIMED = {
         "state term == initial term, seeded draws do not depend on the prior state (substitution of a fresh initial state). 15 stochastic model "
         "functions on real detectors: restored when seeded (also when the model fails late), draws independent of the prior state, no re-seeding "
         "without a seed; called twice on identical detectors from the same generator state every model consumes the same draws and leaves the same buckets (no process-level memo). Seed plumbing with a symbolic pipeline seed through real run_mode (exposure, sequential observation), the deprecated exposure entry point, the dask worker "
-        "function, fitness(), _apply_parameters and Calibration.run_calibration (archipelago stubbed); the optimiser seed is solver-chosen among 0, 1, 7, 100000 and must reach the archipelago, pygmo's global seed and the attribute unchanged. Nested seeding contexts (a model seed inside a pipeline seed, symbolic seeds, 0..3 draws each); generators created from operating-system entropy are recorded and must not occur under a seed; charge_deposition runs with the shipped stopping-power table; every stochastic model also on a detector at a later readout step.",
+        "function, fitness(), _apply_parameters and Calibration.run_calibration (archipelago stubbed); the optimiser seed is solver-chosen among 0, 1, 7, 100000 and must reach the archipelago, pygmo's global seed and the attribute unchanged. Nested seeding contexts (a model seed inside a pipeline seed, symbolic seeds, 0..3 draws each); generators created from operating-system entropy are recorded and must not occur under a seed; charge_deposition runs with the shipped stopping-power table; every stochastic model also on a detector at a later readout step; option combinations that leave one of a model's noise sources on. Two seeded contexts overlapping in time (the threaded parallel mode): the order of their enter / draw / exit steps is a vector of symbolic booleans over the real context manager, counterexamples replayed with two real threads stepped by events - open known finding (18 non-serial orders).",
         "Bit-identity of results additionally assumes numpy's generator and pygmo are deterministic functions of their seeds; local generators "
         "are not modelled; models needing external files (cosmix, charge_deposition, nghxrg, qe maps) are not exercised; pulse_processing's "
         "deterministic physics is stubbed (170 s per pixel).",
@@ -239,7 +239,7 @@ CLAIMED = {
         "photon, which optional buckets are written, debug); each witness is run end-to-end through the real pyxel.run_mode in both result "
         "layouts (and with debug) with a last-in-step probe snapshotting every bucket, and the returned DataTree is compared slice by slice: "
         "values, one slice per readout, absolute-time labels, row/column labels, image dtype, flat == hierarchical, debug does not change the "
-        "result; per model and per step (three-model pipeline, both readout modes) the recorded buckets are those the model changed; charge written as particles and edited in place by the next model (three kinds of edit) against a reference computed from the dataframe, with and without debug. The comparison is concrete: this is exploration on solver-chosen inputs, not a proof.",
+        "result; per model and per step (three-model pipeline, both readout modes) the recorded buckets are those the model changed; charge written as particles and edited in place by the next model (three kinds of edit) against a reference computed from the dataframe, with and without debug; debug records are compared by value with what the detector held when the model returned (a second photon model adds in place; 2-D and 3-D photons). The comparison is concrete: this is exploration on solver-chosen inputs, not a proof.",
         "xarray / pandas cannot hold symbolic values, so C03 is not decided symbolically; every step writes the image bucket (real pyxel "
         "cannot merge >= 2 steps otherwise).",
         "concolic input generation with vx + z3 (one witness per path), concrete end-to-end comparison",
